@@ -75,7 +75,7 @@ def decode_all(task):
             meth = dict((m[0], m[1]) for m in task["methods"])
             if got != {"processing_method": meth[sc["scan"][0]], "scan_number": sc["scan"][1]}:
                 out["bad"].append(("scan-info-misdecoded", f"{sc['scan']} -> {got}"))
-    for bad in ("X1", "B", "B10", "b1", "1B", "F-1", ""):
+    for bad in ["X1", "B", "B10", "b1", "1B", "F-1", ""] + list(task.get("bad_scans", [])):
         expect_error(decoders.decode_scan_info, bad, "scan-info-near-miss-accepted")
     for fn in task["files"]:
         out["n"] += 1
@@ -185,11 +185,27 @@ def body(chk):
     base = "IMG-HH-ALOS2014410740-140829-WBDR1.5GUD"
     bad_files = [base + "X", base + "-B", base + "-B12", base[:-1], "IMG-HX-" + base[7:], "IMG-H-" + base[7:], "img-" + base[4:], base.replace("-140829-", "-14082-"),
                  base + "-F1-F2", "IMG-HH-HH-" + base[7:], base + " ", " " + base, base.replace("WBDR", "WBDX"), base.replace("1.5", "1.6"), "IMGHH-" + base[7:]]
+    # one character off, where that character LOOKS right: each digit replaced by the same digit of another script (fullwidth, Arabic-Indic,
+    # Devanagari), each capital by its fullwidth form or its lower case: outside the alphabet of the grammar (Ident!Alphabet = ASCII)
+    def lookalikes(text):
+        for i, ch in enumerate(text):
+            if ch.isdigit():
+                for basecp in (0xFF10, 0x0660, 0x0966):
+                    yield text[:i] + chr(basecp + int(ch)) + text[i + 1:]
+            elif "A" <= ch <= "Z":
+                yield text[:i] + chr(0xFF21 + ord(ch) - 65) + text[i + 1:]
+                yield text[:i] + ch.lower() + text[i + 1:]
+
+    bad_scenes += list(lookalikes("ALOS2014410740-140829"))
+    bad_files += list(lookalikes(base + "-F1")) + list(lookalikes("IMG-HV-ALOS2014410740-140829-UBSR2.1GUA"))
+    foreign_products = [{"id": v, "valid": False} for v in list(lookalikes("WBDR1.5GUD")) + list(lookalikes("UBSR2.1GUA"))]
+    foreign_scans = [v for sc_ in ("B4", "F1", "F0") for v in lookalikes(sc_)]
     parts = 16
     tasks = []
+    ids["products"] = ids["products"] + foreign_products
     for k in range(parts):
         tasks.append(dict(products=ids["products"][k::parts], scenes=scenes[k::parts], bad_scenes=bad_scenes if k == 0 else [], scans=ids["scans"] if k == 0 else [],
-                          methods=ids["methods"], files=files[k::parts], bad_files=bad_files if k == 0 else []))
+                          methods=ids["methods"], files=files[k::parts], bad_files=bad_files[k::parts], bad_scans=foreign_scans if k == 1 else []))
     results = checklib.pmap(decode_all, tasks, chk.scratch)
     n = 0
     for res in results:
